@@ -586,7 +586,7 @@ static std::string meta_conf(std::string const &dir, int wi, int upd)
 }
 static double hill_centre(int w, int s, int L) { return 0.25 + 1.0 * ((w * (L - 1) + (s - 1)) % 12); }
 
-struct MetaCase { int n, L, upd; int restart_walker; int extra; };
+struct MetaCase { int n, L, upd; int restart_walker; int extra; bool new_prefix = false; };
 
 // multiplicity of every hill (walker p, step s) in walker w's total bias, by probing at the hill centres
 static std::vector<std::vector<int>> meta_multiplicities(Controller &ctl, MetaCase const &c, int w, std::vector<std::vector<bool>> const &deposited, std::string &raw)
@@ -677,7 +677,7 @@ static void meta_run(MetaCase const &c, std::vector<int> const &order, std::stri
       int stt; waitpid(ctl.w[i].pid, &stt, 0);
       WalkerSpec sp;
       sp.conf = meta_conf(".", i, c.upd);
-      sp.out_prefix = "w" + std::to_string(i);
+      sp.out_prefix = "w" + std::to_string(i) + (c.new_prefix ? "r" : "");  // a restarted job usually writes under a new output prefix
       sp.temperature = 0;
       std::ifstream f(("w" + std::to_string(i) + ".colvars.state").c_str());
       std::stringstream ss; ss << f.rdbuf();
@@ -787,7 +787,9 @@ int main(int argc, char **argv)
   {
     for (int upd = 1; upd <= 2; upd++)
       for (int restart = -1; restart <= 1; restart += 2) {
+      for (int np = 0; np <= (restart >= 0 ? 1 : 0); np++) {
         MetaCase c{2, thorough ? 6 : 5, upd, restart, 6};
+        c.new_prefix = (np != 0);
         // all interleavings of the two walkers' L step actions, followed by `extra` alternating quiescence steps
         int L = c.L;
         std::vector<int> base;
@@ -801,6 +803,7 @@ int main(int argc, char **argv)
           if (!thorough && (fnv(std::string(o.begin(), o.end())) % 4) != 0) continue;
           mj.push_back({c, o, -1, -1});
         } while (std::next_permutation(base.begin(), base.end()));
+      }
       }
     // truncated peer file: canonical alternating order; walker 1 synchronises while walker 0's hills file is cut at byte t
     MetaCase c{2, 5, 1, -1, 6};
@@ -841,7 +844,7 @@ int main(int argc, char **argv)
       } else {
         MetaJob const &m = mj[j - abf.size()];
         std::string cj = "{\"part\":\"multiple-walker metadynamics\",\"walkers\":" + std::to_string(m.c.n) + ",\"steps\":" + std::to_string(m.c.L) + ",\"replicaUpdateFrequency\":" +
-                         std::to_string(m.c.upd) + ",\"restart_walker\":" + std::to_string(m.c.restart_walker) + "}";
+                         std::to_string(m.c.upd) + ",\"restart_walker\":" + std::to_string(m.c.restart_walker) + (m.c.new_prefix ? ",\"restart_under_new_output_prefix\":true" : "") + "}";
         r.count("evaluations");
         meta_run(m.c, m.order, "mw", r, cj, m.trunc, m.before);
         if (j == abf.size()) r.sample(cj);
